@@ -101,7 +101,7 @@ def rand_script(rng, maxlen, guarded=True):
         kinds = ["N"] if not regs else rng.choice([["N"], ["C"] * 3 + ["T"] * 3 + ["H", "L", "E", "F", "F"]])
         k = rng.choice(kinds)
         if k == "N":
-            xs = [rng.randrange(0, 1000) for _ in range(rng.choice([0, 0, 1, 1, 2, 3, 5, 8]))]
+            xs = [rng.randrange(0, 1000) for _ in range(rng.choice([0, 0, 1, 1, 2, 3, 5, 8, 9, 13, 17, 33]))]
             regs.append(xs)
             ops.append("N:" + ",".join(map(str, xs)))
             continue
